@@ -7,5 +7,6 @@ CONSTANTS
   MAXUPD = 0
   CANCELS = 0
   TIMERS = FALSE
+  SeesAdmitting = TRUE
 CONSTRAINT Emit2
 CHECK_DEADLOCK FALSE
